@@ -1,6 +1,7 @@
 package plush
 
 import (
+	"errors"
 	"fmt"
 	"strings"
 
@@ -48,21 +49,38 @@ func (h HelperContext) BlockWith(hc hctx.Context) (string, error) {
 		return "", fmt.Errorf("expected *Context, got %T", hc)
 	}
 
-	octx := h.compiler.ctx
-	defer func() { h.compiler.ctx = octx }()
-	h.compiler.ctx = ctx
-
 	if h.block == nil {
 		return "", fmt.Errorf("no block defined")
 	}
 
-	i, err := h.compiler.evalBlockStatement(h.block)
+	// The block is evaluated by an evaluator of its own: a stored block
+	// (contentFor) is rendered again by later executions, possibly by
+	// several at once, and must not borrow the evaluator that defined it.
+	cc := *h.compiler
+	cc.ctx = ctx
+	cc.curStmt = nil
+
+	i, err := cc.evalBlockStatement(h.block)
 	if err != nil {
+		var be *blockError
+		if cc.curStmt != nil && !errors.As(err, &be) {
+			err = &blockError{stmt: cc.curStmt, err: err}
+		}
 		return "", err
 	}
 
 	bb := &strings.Builder{}
-	h.compiler.write(bb, i)
+	cc.write(bb, i)
 
 	return bb.String(), nil
 }
+
+// blockError remembers which statement of a helper's block failed, so that
+// the error is reported at that statement's line.
+type blockError struct {
+	stmt ast.Statement
+	err  error
+}
+
+func (e *blockError) Error() string { return e.err.Error() }
+func (e *blockError) Unwrap() error { return e.err }
